@@ -133,7 +133,7 @@ def call(ex, st, base, attr, recv, args, kwargs, node):
                 if r is not None:
                     yield st1, r
                     continue
-                j = z3.simplify(models.norm_index(i, n))
+                j = S.simp(models.norm_index(i, n))
                 item = ex.narrow(st1, V("py", base.t[j]))
                 nv = V("list", z3.Concat(z3.Extract(base.t, z3.IntVal(0), j), z3.Extract(base.t, j + 1, n - j - 1)))
                 st2 = _writeback(ex, st1, recv, nv)
